@@ -56,7 +56,7 @@ func main() {
 		Rule: "level 1: random/boundary sequences of SharePool.Deposit/Withdraw by many delegators with rewards and slashes, checked with exact integer cross-multiplication (mint and redemption at most pro rata, nobody else's floor(s*B/T) falls, sum of redeemable <= balance, money pump, conservation; non-trivial = sequence with an inexact floor and >=2 delegators); " +
 			"level 2: generated chain histories (escrow, reclaim, rewards with commission, evidence slashing, debonding interval changes by governance) with state dumps around every transaction and staking step: other delegators' redeemable value never falls through a transaction, share price falls only in blocks with a TakeEscrow event for that account, a slash takes the same fraction of active and debonding balance (up to one base unit each), reclaimed delegations are paid once, at the first epoch transition with epoch >= debonding end, at floor(shares*balance/totalShares) of the debonding pool; non-trivial(l2) = history with >=3 reclaims, >=2 payments, >=1 slash",
 		Cases: func(r *evid.Run) []chainsim.Case {
-			return chainsim.StdCases(r.Seed, r.Pick(64, 1600), r.Pick(60, 120), []string{"hostile", "default", "hostile", "election"})
+			return chainsim.StdCases(r.Seed, r.Pick(128, 1600), r.Pick(60, 120), []string{"hostile", "default", "hostile", "election"})
 		},
 		RunCase: runCase,
 		Floor:   60,
